@@ -776,6 +776,10 @@ class StabilizerCode(metaclass=ABCMeta):
         code_name = self.id
         picture = 'rotated' if rotated_picture else 'kitaev'
 
+        # Codes with no dedicated rotated picture are drawn as usual.
+        if stab_type not in data[code_name]['stabilizers'][picture]:
+            picture = 'kitaev'
+
         representation = data[code_name]['stabilizers'][picture][stab_type]
         representation['type'] = stab_type
         representation['location'] = location
